@@ -664,6 +664,10 @@ func CheckC13(spec Spec, o *Obs, sim *Sim) error {
 			if r.Kind == "user" && e.From != r.From {
 				return fmt.Errorf("delivery #%d (%s): %s saw sender %d but the receiver saw %d", deliveries, r, e.Who, e.From, r.From)
 			}
+			// a lifecycle message has no sender: the Context must not show the sender of an earlier delivery
+			if (r.Kind == "Initialized" || r.Kind == "Started" || r.Kind == "Stopped") && e.From != 0 {
+				return fmt.Errorf("delivery #%d (%s): %s was shown sender %d in the Context of a lifecycle message (0 = none, the engine sends these itself; 1..3 = the sender of an earlier user message)", deliveries, r, e.Who, e.From)
+			}
 		}
 		deliveries++
 	}
